@@ -255,6 +255,8 @@ func (r *rewriter) run() {
 		atomics []*ast.CallExpr
 		gos     []*ast.GoStmt
 		wgWaits []*ast.CallExpr
+		onces   []*ast.CallExpr
+		lockers []lockCall
 	)
 	ast.Inspect(r.file, func(n ast.Node) bool {
 		switch x := n.(type) {
@@ -321,6 +323,12 @@ func (r *rewriter) run() {
 						locks = append(locks, lockCall{x, fn.Name()})
 					} else if rn == "WaitGroup" && fn.Name() == "Wait" {
 						wgWaits = append(wgWaits, x)
+					} else if rn == "Once" && fn.Name() == "Do" {
+						onces = append(onces, x)
+					} else if rn == "Locker" && (fn.Name() == "Lock" || fn.Name() == "Unlock") {
+						lockers = append(lockers, lockCall{x, fn.Name()})
+					} else if rn == "Cond" && fn.Name() == "Wait" {
+						r.rep.Warnings = append(r.rep.Warnings, r.site(x.Pos())+" sync.Cond.Wait is not simulated (a task parked in it stalls the run: watchdog, exit 2)")
 					} else if rn == "Map" {
 						r.rep.Warnings = append(r.rep.Warnings, r.site(x.Pos())+" sync.Map use (iteration order not controlled)")
 					}
@@ -393,6 +401,35 @@ func (r *rewriter) run() {
 		}
 		c.Fun = sel("simrt", "WGWait")
 		c.Args = []ast.Expr{arg, siteLit(r.site(c.Pos()))}
+		r.need["simrt"] = true
+		r.changed = true
+	}
+	// once.Do(f)  ->  simrt.OnceDo(&once, f, site)
+	for _, c := range onces {
+		se := c.Fun.(*ast.SelectorExpr)
+		recv := se.X
+		if recvTypeName(r.info.TypeOf(recv)) != "Once" { // promoted through embedding: left alone
+			r.rep.Warnings = append(r.rep.Warnings, r.site(c.Pos())+" Do on an embedded sync.Once not simulated")
+			continue
+		}
+		var arg ast.Expr
+		if _, isPtr := r.info.TypeOf(recv).Underlying().(*types.Pointer); isPtr {
+			arg = recv
+		} else {
+			arg = &ast.UnaryExpr{Op: token.AND, X: recv}
+		}
+		c.Fun = sel("simrt", "OnceDo")
+		c.Args = []ast.Expr{arg, c.Args[0], siteLit(r.site(c.Pos()))}
+		r.rep.LockSites++
+		r.need["simrt"] = true
+		r.changed = true
+	}
+	// l.Lock() / l.Unlock() on a sync.Locker  ->  simrt.LockerLock(l, site) / simrt.LockerUnlock(l, site)
+	for _, lc := range lockers {
+		se := lc.call.Fun.(*ast.SelectorExpr)
+		lc.call.Fun = sel("simrt", "Locker"+lc.name)
+		lc.call.Args = []ast.Expr{se.X, siteLit(r.site(lc.call.Pos()))}
+		r.rep.LockSites++
 		r.need["simrt"] = true
 		r.changed = true
 	}
